@@ -3,7 +3,7 @@
   build(ps, temporal)         -> Built: the REAL Problem (instantaneous actions via upp.build_problem, durative
                                  actions / timed effects / timed goals from the `temporal` section)
   run_tt / run_seq            -> verdict s-expressions of the REAL TimeTriggeredPlanValidator / SequentialPlanValidator
-  gen_problem_c04 / gen_plan  -> generators of C04 (C01 grammar + nested effect targets; simulator-guided plans)
+  gen_problem_c04 / gen_plan  -> generators of C04 (C01 grammar; simulator-guided plans)
   TGen                        -> generator of the small temporal problems of C05
   spec_valid                  -> an independent Python implementation of lean/UPVerif/Spec/Temporal.lean (ORACLE only)
 
@@ -192,29 +192,6 @@ def run_seq(b, plan, keep=None):
 KEPT_OUT = {"builder-rejected": 0, "initial-violates-invariants": 0, "unsupported-kind": 0, "exists-eq-elimination": 0}
 
 
-def _nest_targets(rng, ps, g):
-    """rewrite some object arguments of effect TARGETS into object-valued fluent reads (`at`, `own(s1)`):
-    the target's arguments are then evaluated in the state (and may be undefined)"""
-    FL = g.FL
-    nested = [["fl", FL["at"]], ["fl", FL["own"], ["o", "s1", "S"]]]
-    out = list(ps)
-    for i, sec in enumerate(ps):
-        if isinstance(sec, list) and sec and sec[0] == "actions":
-            acts = []
-            for a in sec[1:]:
-                effs = ["effs"]
-                for e in a[4][1:]:
-                    f = e[2]
-                    if len(f) > 2 and rng.random() < 0.35:
-                        # bq(T), xq(T) take a T argument; own(S) takes an S one (at/own are T-valued)
-                        if f[1][2] == [["user", "T"]]:
-                            f = [f[0], f[1], rng.choice(nested)]
-                    effs.append(["eff", e[1], f, e[3], e[4], e[5]])
-                acts.append(["action", a[1], a[2], a[3], effs])
-            out[i] = ["actions"] + acts
-    return out
-
-
 def gen_problem_c04(rng):
     """one canonical problem of the C01 grammar (no interpreted functions), or None if kept out"""
     g = upp.ProblemGen(rng, undefined=True, invariants=True, metrics=False)
@@ -223,8 +200,6 @@ def gen_problem_c04(rng):
         for j, sec in enumerate(ps):
             if isinstance(sec, list) and sec and sec[0] == "traj":
                 ps[j] = sec + simlib.extra_invariants(rng, g)
-    if rng.random() < 0.3:
-        ps = _nest_targets(rng, ps, g)
     flags = {}
     ps = simlib.normalise_problem(ps, flags)
     if flags.get("exists-eq") and not simlib.SIMPLIFIER_REPAIRED:
@@ -683,3 +658,211 @@ def make_case_c05(rng):
                     break
                 plan = g.plan(ps, temporal)
         return ["c05", ps, temporal, ["plan"] + plan]
+
+
+# ------------------------------------------------------------------------------------------------
+# C05: independent reference semantics (ORACLE side) — the reading of lean/UPVerif/Spec/Temporal.lean
+# written from the property text with sets / intervals, no event queue, no accumulators
+# ------------------------------------------------------------------------------------------------
+
+class OutOfDomain(Exception):
+    """the case is outside the domain of the semantics (something scheduled before the start of its action or
+    before time 0, an empty condition interval, a timing the problem-level constructs do not admit)"""
+
+
+INF = None
+
+
+def subst_params(e, m):
+    """replace the parameters `m: name -> object s-expression` in an expression s-expression"""
+    if not isinstance(e, list) or not e:
+        return e
+    h = e[0]
+    if h == "p":
+        return m.get(e[1], e)
+    if h in ("b", "i", "r", "o", "v", "timing", "present"):
+        return e
+    if h in ("fl", "ifun"):
+        return [h, e[1]] + [subst_params(a, m) for a in e[2:]]
+    if h in ("exists", "forall"):
+        return [h, e[1], subst_params(e[2], m)]
+    return [h] + [subst_params(a, m) for a in e[1:]]
+
+
+def initial_map(ps):
+    objtype = dict(map(tuple, upp.get(ps, "objects")))
+    init = {}
+    for f, v in upp.get(ps, "init"):
+        init[sexp.dumps(f)] = pyden.den(v, {"fl": {}, "fn": {}, "par": {}, "dom": {}})
+    m = {}
+    for ref, d in upp.get(ps, "fluents"):
+        doms = [upp.objects_of(ps, t[1]) for t in ref[2]]
+        for combo in product(*doms):
+            fe = ["fl", ref] + [["o", o, objtype[o]] for o in combo]
+            k = (pyden.key(ref), tuple(("o", o) for o in combo))
+            if sexp.dumps(fe) in init:
+                m[k] = init[sexp.dumps(fe)]
+            elif d != "_":
+                m[k] = pyden.den(d, {"fl": {}, "fn": {}, "par": {}, "dom": {}})
+    return m
+
+
+def _meets(a, b, lo, hi, lopen, ropen):
+    """does the span (a, b] of a state (a = -inf: None, b = +inf: None; then (a, +inf)) contain a time point of the
+    interval from lo to hi (hi None = +inf) with the given openness?"""
+    # greatest lower bound and whether it is excluded
+    if a is None or a < lo:
+        L, sl = lo, lopen
+    else:
+        L, sl = a, True
+    # least upper bound and whether it is excluded
+    if hi is None and b is None:
+        return True
+    if b is None or (hi is not None and hi <= b):
+        U, su = hi, ropen
+    else:
+        U, su = b, False
+    return L < U or (L == U and not sl and not su)
+
+
+def spec_valid(b, plan):
+    """True / False: is the plan valid for the problem `b` (a Built) in the reference temporal semantics?
+    Raises OutOfDomain outside the semantics' domain."""
+    from unified_planning.engines.compilers.grounder import GrounderHelper
+    ps, temporal = b.ps, b.temporal
+    objtype = b.objtype
+    das = {d[1]: d for d in tsec(temporal, "dactions")}
+    ias = {a[1]: a for a in upp.get(ps, "actions")}
+    events = []      # (time, tag, [effect sexps])
+    conds = []       # (lo, hi, lopen, ropen, expr)
+
+    def inst_timing(t, start, dur):
+        k, d = t[0], Fraction(t[1])
+        if k in ("S", "GS"):
+            return start + d
+        if k == "GE":
+            return INF
+        if dur is None:
+            raise OutOfDomain("end timing without a duration")
+        return start + dur + d
+
+    for te in tsec(temporal, "teff"):
+        if te[0][0] != "GS":
+            raise OutOfDomain("timed effect not from the global start")
+        events.append((inst_timing(te[0], Fraction(0), None), None, te[1:], Fraction(0)))
+    for tg in tsec(temporal, "tgoal"):
+        lo = inst_timing(tg[0][0], Fraction(0), None)
+        if lo is INF or tg[0][0][0] != "GS" or tg[0][1][0] not in ("GS", "GE"):
+            raise OutOfDomain("timed goal interval")
+        hi = inst_timing(tg[0][1], Fraction(0), None)
+        for g in tg[1:]:
+            conds.append((lo, hi, tg[0][2] == "T", tg[0][3] == "T", g))
+    for inv in simlib.problem_invariants(ps):
+        conds.append((Fraction(0), INF, False, False, inv))
+    grounder = GrounderHelper(b.P, prune_actions=False)
+    for idx, (st, name, args, du) in enumerate(plan):
+        start = Fraction(st)
+        if name in ias:
+            act = b.P.action(name)
+            params = tuple(b.ctx.em.ObjectExp(b.ctx.obj(o, objtype[o])) for o in args)
+            ga = grounder.ground_action(act, params)
+            if ga is None:
+                return False                                  # the instance does not ground
+            events.append((start, idx, [upp.enc_effect(e) for e in ga.effects], start))
+            for c in ga.preconditions:
+                conds.append((start, start, False, False, upx.enc_expr(c)))
+        else:
+            d = das[name]
+            if du == "-":
+                raise OutOfDomain("durative action without a duration")
+            dur = Fraction(du)
+            m = {pn: ["o", o, objtype[o]] for (pn, _), o in zip(d[2], args)}
+            lo_e, hi_e = subst_params(d[3][1], m), subst_params(d[3][2], m)
+            dq = ["r", q2s(dur)]
+            lc = ["lt", lo_e, dq] if d[3][3] == "T" else ["le", lo_e, dq]
+            uc = ["lt", dq, hi_e] if d[3][4] == "T" else ["le", dq, hi_e]
+            conds.append((start, start, False, False, ["and", lc, uc]))
+            for te in d[5][1:]:
+                t = inst_timing(te[0], start, dur)
+                if t is INF:
+                    raise OutOfDomain("action effect at the global end")
+                effs = [["eff", e[1], subst_params(e[2], m), subst_params(e[3], m), subst_params(e[4], m), e[5]] for e in te[1:]]
+                events.append((t, idx, effs, start))
+            for c in d[4][1:]:
+                lo = inst_timing(c[0][0], start, dur)
+                hi = inst_timing(c[0][1], start, dur)
+                if lo is INF or hi is INF:
+                    raise OutOfDomain("action condition up to the global end")
+                for e in c[1:]:
+                    conds.append((lo, hi, c[0][2] == "T", c[0][3] == "T", subst_params(e, m)))
+    # the domain of the semantics
+    for t, _, _, start in events:
+        if t < start or t < 0:
+            raise OutOfDomain("event before the start of its action instance")
+    for lo, hi, lopen, ropen, _ in conds:
+        if lo < 0:
+            raise OutOfDomain("condition before time 0")
+        if hi is not INF and not (lo < hi or (lo == hi and not lopen and not ropen)):
+            raise OutOfDomain("empty condition interval")
+    # the instants
+    times = sorted({t for t, _, _, _ in events})
+    states = [initial_map(ps)]
+    for t in times:
+        pre = states[-1]
+        I = simlib._interp(ps, pre)
+        fired = []     # (tag, kind, key, fluent type, value)
+        for tt, tag, effs, _ in events:
+            if tt != t:
+                continue
+            for e in effs:
+                _, kind, fl, val, cond, vs = e
+                doms = [upp.objects_of(ps, ty[1]) for _, ty in vs]
+                for combo in product(*doms):
+                    env = {(n, pyden.key(ty)): ["o", o, objtype[o]] for (n, ty), o in zip(vs, combo)}
+                    f1, v1, c1 = simlib.subst_vars(fl, env), simlib.subst_vars(val, env), simlib.subst_vars(cond, env)
+                    argv = [pyden.den(a, I) for a in f1[2:]]
+                    if any(a is None for a in argv):
+                        return False                          # an undefined read
+                    cv = pyden.den(c1, I)
+                    if cv is None or cv[0] != "b":
+                        return False
+                    if not cv[1]:
+                        continue
+                    vv = pyden.den(v1, I)
+                    if vv is None:
+                        return False
+                    fired.append((tag, kind, (pyden.key(f1[1]), tuple(argv)), f1[1][1], vv))
+        succ = dict(pre)
+        for k in {f[2] for f in fired}:
+            asg = [(tag, v) for tag, kind, kk, _, v in fired if kk == k and kind == "assign"]
+            inc = [v for _, kind, kk, _, v in fired if kk == k and kind == "increase"]
+            dec = [v for _, kind, kk, _, v in fired if kk == k and kind == "decrease"]
+            ty = next(t_ for _, _, kk, t_, _ in fired if kk == k)
+            if len({tag for tag, _ in asg}) > 1:
+                return False                                  # assigned by two different action instances
+            if asg and (inc or dec):
+                return False
+            if asg:
+                if ty == "bool":
+                    succ[k] = ("b", any(v == ("b", True) for _, v in asg))
+                else:
+                    if len({v for _, v in asg}) > 1:
+                        return False
+                    succ[k] = asg[0][1]
+            else:
+                if k not in pre or pre[k][0] != "n":
+                    return False
+                succ[k] = ("n", pre[k][1] + sum((v[1] for v in inc), Fraction(0)) - sum((v[1] for v in dec), Fraction(0)))
+        states.append(succ)
+    # state j is in force on the span (times[j-1], times[j]]
+    spans = [(None if j == 0 else times[j - 1], None if j == len(times) else times[j]) for j in range(len(states))]
+    for lo, hi, lopen, ropen, e in conds:
+        for (a, bb), smap in zip(spans, states):
+            if _meets(a, bb, lo, hi, lopen, ropen):
+                if pyden.den(e, simlib._interp(ps, smap)) != ("b", True):
+                    return False
+    Ilast = simlib._interp(ps, states[-1])
+    for g in upp.get(ps, "goals"):
+        if pyden.den(g, Ilast) != ("b", True):
+            return False
+    return True
